@@ -68,6 +68,14 @@ class UnitResult:
         self.mutants = []
 
 
+
+def atomic_write(path, text):
+    """several checks may run at the same time and generate the same unit file: readers must never see a half-written file"""
+    tmp = '%s.%d.tmp' % (path, os.getpid())
+    with open(tmp, 'w') as fh:
+        fh.write(text)
+    os.replace(tmp, path)
+
 def verus_fn_lookup(vfuncs, key):
     """find the entry of function-breakdown for a unit function key 'Type::name' or 'name'."""
     cands = [n for n in vfuncs if n.endswith('::' + key)]
@@ -111,14 +119,14 @@ def run_unit(unit, tier, seed, do_canary=True):
     except ImportError:
         pass
     main_path = os.path.join(BUILD, unit + '.rs')
-    open(main_path, 'w').write(text)
-    json.dump(meta, open(main_path + '.meta.json', 'w'), indent=1)
+    atomic_write(main_path, text)
+    atomic_write(main_path + '.meta.json', json.dumps(meta, indent=1))
     jobs = {}
     with cf.ThreadPoolExecutor(max_workers=2) as ex:
         jobs['main'] = ex.submit(vrun.run_verus, main_path, None, None, 20, 6)
         if do_canary:
             cpath = os.path.join(BUILD, unit + '_canary.rs')
-            open(cpath, 'w').write(ctext)
+            atomic_write(cpath, ctext)
             jobs['canary'] = ex.submit(vrun.run_verus, cpath, None, None, 200, 6)
     res = jobs['main'].result()
     ur.verus = res
@@ -162,7 +170,7 @@ def run_unit(unit, tier, seed, do_canary=True):
                 applied = dict((f['key'], f.get('auto_invariants')) for f in rmeta['functions'] if f.get('auto_invariants'))
                 if applied:
                     rpath = os.path.join(BUILD, unit + '_repair.rs')
-                    open(rpath, 'w').write(rtext)
+                    atomic_write(rpath, rtext)
                     res3 = vrun.run_verus(rpath, None, None, 20, 6)
                     ur3 = UnitResult(unit)
                     ur3.changed = ur.changed
